@@ -185,8 +185,8 @@ def run(ctx):
                                                                      "implementation_flags": flagged, "specified": want, "error": ir.get("error"), "broken": None})
     # ---- the instantiation in `component main = T(...)` (audit C11 f2): it is an instantiation like any other
     with vlib.Workdir("c11m") as wdm:
-        mains = [("BLS12_381", "Sign", "()", "pragma circom 2.0.0;\ntemplate Sign() { signal input in[254]; signal output sign; sign <== in[0]; }\n", "CS0012"),
-                 ("BN254", "Num2Bits", "(254)", "pragma circom 2.0.0;\ntemplate Num2Bits(n) { signal input in; signal output out[n]; for (var i = 0; i < n; i++) { out[i] <-- (in >> i) & 1; out[i] * (out[i] - 1) === 0; } }\n", "CS0011")]
+        mains = [("BLS12_381", "Sign", "()", "pragma circom 2.0.0;\ntemplate Sign() { signal input in[254]; signal output sign; sign <== in[0]; }\n", "CS0016"),
+                 ("BN254", "Num2Bits", "(254)", "pragma circom 2.0.0;\ntemplate Num2Bits(n) { signal input in; signal output out[n]; for (var i = 0; i < n; i++) { out[i] <-- (in >> i) & 1; out[i] * (out[i] - 1) === 0; } }\n", "CS0010")]
         reqm = []
         for c, t, args, text, rid in mains:
             p = wdm.write("main_%s.circom" % t, (text + "component main = %s%s;\n" % (t, args)).encode())
